@@ -60,6 +60,12 @@ def configs(tier):
             out.append({"mode": "ind", "family": fam, "pool": pool, "K": K, "cap": cap})
     for pool in ([["DE", "UE"], ["TE", "GL"]] if tier == "quick" else [["DE", "UE"], ["TE", "GL"], ["DE", "DE"]]):
         out.append({"mode": "bmc", "pool": pool, "depth": 2})
+    # the pool edges built by the public constructor with symbolic ends, then two link-side mutators
+    # (histories such as  e = DE(a, b); e.v1 = c; e.v1 = a  of length three, one constructor included)
+    out.append({"mode": "bmc", "pool": ["DE", "UE"], "depth": 2, "families": FAMILIES[2:6], "built": True})
+    # a two-ended edge that names a third vertex (e.add_vertex(c) is public) under unlink / the end setters
+    for fam in ("unlink", "set_v1", "unlink_from"):
+        out.append({"mode": "ind", "family": fam, "pool": ["DE", "UE"], "K": 3, "cap": 5})
     if tier != "quick":
         # depth 3 over the six association / end mutators (the constructors and builders multiply the tree)
         out.append({"mode": "bmc", "pool": ["DE", "UE"], "depth": 3, "families": FAMILIES[:6]})
@@ -91,6 +97,12 @@ try:
     outcome = "ok"
 except Exception as exc:
     outcome = type(exc).__name__
+'''
+
+
+PROG_BUILD = '''
+e0 = L0(p0, q0)
+e1 = L1(p1, q1)
 '''
 
 
@@ -126,7 +138,13 @@ def do_step(B, fam, verts, links, tag, lcls_choice=None):
 def scenario(B, p):
     # one pool vertex is of a falsy Vertex subclass (legal: an empty container-like vertex)
     verts = make_vertices(B, 3, ["Vertex", "FalsyVertex", "Vertex"])
-    links = make_links(B, p["pool"])
+    if p.get("built"):
+        out = B.run(PROG_BUILD, {"L0": B.cls(LINK_CLASS_MENU[p["pool"][0]]), "L1": B.cls(LINK_CLASS_MENU[p["pool"][1]]),
+                                 "p0": B.ref("e0.v1", verts, allow_none=True), "q0": B.ref("e0.v2", verts, allow_none=True),
+                                 "p1": None, "q1": None})
+        links = [B.label(out["e0"], "e0"), B.label(out["e1"], "e1")]
+    else:
+        links = make_links(B, p["pool"])
     if p["mode"] == "ind":
         symbolic_assoc_state(B, verts, links, p["K"], p["cap"])
         B.assume(inv01(B, verts, links), "Inv01(pre)")
